@@ -44,7 +44,7 @@ def extract(ctx):
     s = slice_block(ETS, r'void\* ets_base<ETS_key_type>::table_lookup\( bool& exists \)')
     sliced.append('%s:%d ets_base::table_lookup (sizing statements)' % (ETS, s.line))
     # the two statements in front of `array* a = allocate(s);` (their expressions are NOT pinned: a changed start value / loop condition is decided by the obligations)
-    m = re.search(r'\{\s*(std::size_t s = [^;{}]*;\s*while\([^;{}]*\)\s*\+\+s;)\s*array\* a = allocate\(s\);', s.text)
+    m = re.search(r'\{\s*(std::size_t s = [^{}]*?;)\s*array\* a = allocate\(s\);', s.text, re.S)
     if not m:
         raise ExtractionBreak('table_lookup: sizing statements changed')
     t = 'static size_t ets_new_lg_size(const struct ets_array* r, size_t c) {\n    ' + m.group(1) + '\n    return s;\n}'
@@ -52,7 +52,8 @@ def extract(ctx):
     t = _accessors(rw, t)
     t = rw.fcasts(t, ['std::size_t'])
     t = rw.std(t)
-    t = tag_loops(t, 'sizing', rw, expect=1)
+    t = tag_loops(t, 'sizing', rw)
+    ctx.ets_sizing_loops = rw.fired.get('loops:sizing', 0)
     out.append(t)
     if not re.search(r'for\(std::size_t i = ir->start\(h\);; i = \(i\+1\)&mask\)', s.text) or not re.search(r'for\(std::size_t i = r->start\(h\); ;i=\(i\+1\)&mask\)', s.text):
         raise ExtractionBreak('table_lookup: probe loops no longer step with (i+1)&mask from start(h)')
@@ -226,7 +227,8 @@ def extract_lookup(ctx, sliced, fired):
     t = rw.fcasts(t, ['std::size_t'])
     t = rw.std(t)
     t = rw.number_sites(t, 'lookup', by_kind=True)
-    t = tag_loops(t, 'lookup', rw)
+    t = tag_loops(t, 'lookup', rw, names=[(r'ARR_NEXT\(r\)', 'chain'), (r'STUB_start\(r, h\)', 'probe'), (r'while\s*\(\s*c\s*>', 'sizing'), (r'for\s*\(\s*;\s*;\s*\)', 'publish'), (r'STUB_start\(ir, h\)', 'insert')])
+    ctx.lookup_loops = sum(v for k_, v in rw.fired.items() if k_.startswith('loop:lookup_'))
     out.append(t)
     common.write(ctx, 'lookup.inc', '\n'.join(out) + '\n')
     fired['ets_lookup'] = rw.fired
@@ -494,11 +496,11 @@ def build(ctx):
         Job('ets.probe_index', C, 'h_probe', route='LF', defines=['ETS'], target='ets_base::array::size/mask/start + probe step (i+1)&mask', source=ETS),
         Job('ets.sizing', C, 'h_sizing', route='LW', unwind=66, defines=['ETS'], target='ets_base::table_lookup sizing loop', source=ETS),
         Job('ets.slot_claim', C, 'h_claim', route='RG', defines=['ETS', 'SLOT'], target='ets_base::slot::claim/match/empty', source=ETS),
-        Job('ets.lookup.first', C, 'h_lookup_first', route='RG', defines=['LOOKUP', 'CASE_FIRST'], loops=True, nloops=5, timeout=600, solver='cadical', target='ets_base::table_lookup + allocate/deallocate (first access of a thread: search, create, count, grow with root race, claim)', source=ETS),
-        Job('ets.lookup.returning', C, 'h_lookup_returning', route='RG', defines=['LOOKUP', 'CASE_RETURNING'], loops=True, nloops=5, timeout=600, solver='cadical', target='ets_base::table_lookup (later access: found at top level, or found in an older table and re-inserted)', source=ETS),
-        Job('ets.lookup.fault_init', C, 'h_lookup_first', route='RG', defines=['LOOKUP', 'CASE_FIRST', 'FAULT_INIT'], loops=True, nloops=5, timeout=600, solver='cadical',
+        Job('ets.lookup.first', C, 'h_lookup_first', route='RG', defines=['LOOKUP', 'CASE_FIRST'], loops=True, nloops=ctx.lookup_loops, timeout=600, solver='cadical', target='ets_base::table_lookup + allocate/deallocate (first access of a thread: search, create, count, grow with root race, claim)', source=ETS),
+        Job('ets.lookup.returning', C, 'h_lookup_returning', route='RG', defines=['LOOKUP', 'CASE_RETURNING'], loops=True, nloops=ctx.lookup_loops, timeout=600, solver='cadical', target='ets_base::table_lookup (later access: found at top level, or found in an older table and re-inserted)', source=ETS),
+        Job('ets.lookup.fault_init', C, 'h_lookup_first', route='RG', defines=['LOOKUP', 'CASE_FIRST', 'FAULT_INIT'], loops=True, nloops=ctx.lookup_loops, timeout=600, solver='cadical',
             target='ets_base::table_lookup, fault domain: the initialiser (create_local) throws', source=ETS),
-        Job('ets.lookup.fault_array', C, 'h_lookup_first', route='RG', defines=['LOOKUP', 'CASE_FIRST', 'FAULT_ARRAY'], loops=True, nloops=5, timeout=600, solver='cadical',
+        Job('ets.lookup.fault_array', C, 'h_lookup_first', route='RG', defines=['LOOKUP', 'CASE_FIRST', 'FAULT_ARRAY'], loops=True, nloops=ctx.lookup_loops, timeout=600, solver='cadical',
             target='ets_base::table_lookup, fault domain: the allocation of a bigger table (create_array) throws after the element was created', source=ETS),
         Job('ets.layout', C, 'h_layout', route='LF', defines=['LAYOUT', 'LAYOUT_MAX_LG=12'],
             target='ets_base::allocate / array::at / deallocate on real memory', source=ETS),
